@@ -58,7 +58,7 @@ def floors(tier):
     return {
         "comparisons": {"ndf": 1500, "goodness_of_fit": 1200, "chi2_probability": 1200, "gof/ndf": 1200, "multi.ndf": 150, "multi.goodness_of_fit": 150, "multi.chi2_probability": 150,
                         "multi.goodness_of_fit(shared)": 60, "multi.goodness_of_fit(shared, member constraint at another index)": 15, "multi.chi2_probability(shared)": 20},
-        "ops": ["fix_parameter", "release_parameter", "add_parameter_constraint", "add_matrix_parameter_constraint", "set_parameter_values", "do_fit", "member.add_parameter_constraint", "member.add_matrix_parameter_constraint", "multi.add_error.shared", "multi.add_matrix_error.shared"],
+        "ops": ["fix_parameter", "release_parameter", "add_parameter_constraint", "add_matrix_parameter_constraint", "set_parameter_values", "do_fit", "member.add_parameter_constraint", "member.add_matrix_parameter_constraint", "multi.add_error.shared", "multi.add_matrix_error.shared", "read.error_band", "read.derivative_by_parameters", "read.eval_model_function", "read.eval_model_function_density", "read.model_property", "read.report"],
         "reach": ["%s:%s" % a for a in ANCHORS],
         "sets": {"type_cost": 25},
         "strata": ["multi", "unbinned", "hist", "xy", "indexed", "release-after-fix", "fix-again", "constraint-after-fit",
@@ -93,7 +93,7 @@ def gen_single(rng, ftype, cost, prefix="", n=None):
     return spec, ops
 
 
-def gen_history(rng, pnames, pvals, length, members=None):
+def gen_history(rng, pnames, pvals, length, members=None, reads=None):
     """ops over the alphabet; `members`: list of (index, pnames) for multi-fits (constraints may go to members)."""
     ops = []
     fixed = set()
@@ -119,15 +119,64 @@ def gen_history(rng, pnames, pvals, length, members=None):
                 ops.append(["member", mi, c])
             else:
                 ops.append(gen.gen_constraint(rng, pnames, pvals))
-        elif r < 0.85:
+        elif r < 0.78:
             k = int(rng.integers(1, len(pnames) + 1))
             idx = rng.choice(len(pnames), size=k, replace=False)
             vals = {pnames[int(i)]: float(np.round(pvals[int(i)] * rng.uniform(0.85, 1.15) + rng.uniform(-0.02, 0.02), 5)) for i in idx if pnames[int(i)] not in fixed}
             if vals:
                 ops.append(["set_parameter_values", vals])
+        elif r < 0.88 and reads:
+            # a pure query between two readings of ndf / gof: evaluating the model (or its derivatives, or its band) on a grid of
+            # another length than the data must not change what "number of data points" means afterwards
+            ops.append(["read", str(rng.choice(reads)), int(rng.choice([1, 2, 3, 5, 17, 50]))])
         else:
             ops.append(["do_fit"])
     return ops
+
+
+READS = {
+    "xy": ["error_band", "derivative_by_parameters", "eval_model_function", "model_property", "report"],
+    "indexed": ["model_property", "report"],
+    "hist": ["eval_model_function_density", "model_property", "report"],
+    "unbinned": ["eval_model_function", "model_property", "report"],
+}
+
+
+def do_read(ctx, fit, ftype, what, k, did_fit):
+    """pure queries; returns False when the query itself failed numerically (history ends)"""
+    import io
+
+    if what == "error_band" and not did_fit:
+        what = "derivative_by_parameters"
+    ctx.op("read." + what)
+    try:
+        if ftype == "xy":
+            x = np.array(fit.x_data, dtype=float)
+            grid = np.linspace(float(x.min()) - 0.3, float(x.max()) + 0.3, k)
+        elif ftype == "hist":
+            lo, hi = fit.data_container.bin_range
+            grid = np.linspace(lo, hi, k)
+        elif ftype == "unbinned":
+            d = np.array(fit.data, dtype=float)
+            grid = np.linspace(float(d.min()), float(d.max()), k)
+        if what == "error_band":
+            fit.error_band(grid)
+        elif what == "derivative_by_parameters":
+            fit.eval_model_function_derivative_by_parameters(x=grid)
+        elif what == "eval_model_function":
+            fit.eval_model_function(x=grid)
+        elif what == "eval_model_function_density":
+            fit.eval_model_function_density(grid)
+        elif what == "model_property":
+            fit.model
+        elif what == "report":
+            fit.report(io.StringIO())
+    except Exception as e:
+        if numerical_failure(e):
+            ctx.discard("read-failed-numerically")
+            return False
+        ctx.note("read.%s raised %s" % (what, type(e).__name__))
+    return True
 
 
 def gen_case(rng, tier, idx, shard, nshards):
@@ -139,7 +188,7 @@ def gen_case(rng, tier, idx, shard, nshards):
         cost = "nll" if kind == "unbinned" else (COSTS[(gi // 5) % len(COSTS)] if gi < 60 else str(rng.choice(COSTS)))
         spec, ops = gen_single(rng, kind, cost)
         m = Model.from_spec(spec["model"])
-        hist = gen_history(rng, m.pnames, m.defaults, hl)
+        hist = gen_history(rng, m.pnames, m.defaults, hl, reads=READS[kind])
         return {"property": "C10", "kind": kind, "spec": spec, "setup": ops, "history": hist, "minimizer": str(rng.choice(["iminuit", "scipy"]))}
     return gen_multi(rng, tier, gi, hl)
 
@@ -342,6 +391,9 @@ def run_single(ctx, case):
                 return nontrivial
             did_fit = True
             sync_params_from_fit(mb)
+        elif op[0] == "read":
+            if not do_read(ctx, mb.fit, case["kind"], op[1], op[2], did_fit):
+                break
         else:
             dsl.apply_live(mb.fit, spec, op)
             dsl.apply_ref(mb.ref, spec, op)
